@@ -122,7 +122,9 @@ class Seams:
     """Context manager: records fit calls coming from fit_model and injects at most one fault into the k-th one."""
 
     def __init__(self, fault=None):
-        self.fault = fault  # (k, kind) or None
+        self.fault = fault  # (k, kind[, inner]) or None; inner = "first" | "last" inner solve of a fit with several taus
+        self.inner_total = 1
+        self.inner_seen = 0
         self.calls = []
         self.other_fit_calls = 0
         self.armed = None
@@ -181,6 +183,8 @@ class Seams:
             mine = H.fault is not None and idx == H.fault[0] and not H.fired
             if mine:
                 H.armed = H.fault[1]
+                H.inner_total = len(rec.get("taus", [0])) or 1
+                H.inner_seen = 0
             try:
                 return orig_fit(solver, *args, **kwargs)
             finally:
@@ -190,6 +194,10 @@ class Seams:
 
         def fire_raise():
             if H.armed in ("solver_error", "warning_as_error"):
+                H.inner_seen += 1
+                inner = H.fault[2] if H.fault is not None and len(H.fault) > 2 else "first"
+                if inner == "last" and H.inner_seen < H.inner_total:
+                    return
                 kind, H.armed, H.fired = H.armed, None, True
                 if kind == "solver_error":
                     H.injected = cvxpy.error.SolverError("injected fault: Solver 'CLARABEL' failed.")
@@ -286,8 +294,12 @@ def positions(case, calls):
     out = []
     ei = -1
     for rec in calls:
-        if "unbindable" in rec or len(rec["taus"]) != 1:
-            raise RuntimeError(f"harness: unexpected first-attempt fit {rec.get('unbindable', rec.get('taus'))}")
+        if "unbindable" in rec:
+            raise RuntimeError(f"harness: unexpected first-attempt fit {rec.get('unbindable')}")
+        if len(rec["taus"]) != 1:
+            # a fit that solves several quantiles at once (not what the current code does, but a legitimate structure)
+            out.append(("bounds", max(ei, 0), None))
+            continue
         tau = rec["taus"][0]
         if tau == 0.5:
             ei += 1
@@ -298,9 +310,6 @@ def positions(case, calls):
             if abs(req["alphas"][ai] - alpha) > 1e-9 or ei < 0:
                 raise RuntimeError(f"harness: tau {tau} matches no requested alpha {req['alphas']}")
             out.append(("lower" if tau < 0.5 else "upper", ei, ai))
-    want = len(req["estimands"]) * (1 + 2 * len(req["alphas"]))
-    if len(out) != want:
-        raise RuntimeError(f"harness: {len(out)} fits recorded, expected {want}")
     return out
 
 
@@ -430,14 +439,14 @@ def _summary(case, k, kind, pos, F):
     }
 
 
-def evaluate_fault(case, base, k, kind, ctx, control_cache):
+def evaluate_fault(case, base, k, kind, ctx, control_cache, inner="first"):
     """Runs the case with one fault in the k-th fit and applies the oracle."""
     run0, calls0, pos = base
     F = len(calls0)
     p = pos[k - 1]
     req = case["req"]
     stored = copy.deepcopy(case)
-    stored["fault"] = {"k": k, "kind": kind}
+    stored["fault"] = {"k": k, "kind": kind, "inner": inner}
     where = f"fault {kind} in fit {k}/{F} ({p[0]}, estimand {req['estimands'][p[1]]}" + (f", alpha {req['alphas'][p[2]]})" if p[2] is not None else ")")
 
     ctx.evaluated()
@@ -447,7 +456,7 @@ def evaluate_fault(case, base, k, kind, ctx, control_cache):
     ctx.label(lam_class(case))
     ctx.nontrivial(f"{p[0]}|e{p[1]}|a{p[2]}|{kind}|{req['pi']}|{lam_class(case)}", _summary(case, k, kind, p, F))
 
-    with Seams((k, kind)) as h:
+    with Seams((k, kind, inner)) as h:
         run = run_case(case, keep_client=False)
     _assert_clean()
     if h.unfired or not h.fired:
@@ -529,15 +538,19 @@ def check_case(case, ctx, only=None):
     ctx.label(f"fits_per_run:{F}")
     cache = {}
     if only is not None:
-        k, kind = only
+        k, kind = only[0], only[1]
+        inner = only[2] if len(only) > 2 else "first"
         if not (1 <= k <= F) or kind not in kinds_for(case):
             ctx.label("replay:fault_position_not_in_case")
             return
-        evaluate_fault(case, base, k, kind, ctx, cache)
+        evaluate_fault(case, base, k, kind, ctx, cache, inner)
         return
     for k in range(1, F + 1):
         for kind in kinds_for(case):
             evaluate_fault(case, base, k, kind, ctx, cache)
+            if len(base[1][k - 1].get("taus", [0])) > 1 and kind != "inaccurate_status":
+                # a fit that solves several quantiles: also fail its LAST inner solve (earlier ones already stored)
+                evaluate_fault(case, base, k, kind, ctx, cache, "last")
 
 
 def run_part(name, seed, n, tier, ctx, si, sc):
@@ -546,7 +559,7 @@ def run_part(name, seed, n, tier, ctx, si, sc):
 
 def replay(case, ctx):
     f = case.get("fault")
-    check_case(case, ctx, only=(int(f["k"]), f["kind"]) if f else None)
+    check_case(case, ctx, only=(int(f["k"]), f["kind"], f.get("inner", "first")) if f else None)
 
 
 def facts(case):
